@@ -29,7 +29,7 @@ CAPS = (1, 2, 3, 8)
 
 def gen(d, tier):
     qcap = CAPS[d.below(4)]
-    s, nev = E.gen_history(d, qcap, S.WF_SAMPLE | S.WF_PROBE)
+    s, nev = E.gen_history(d, qcap, S.WF_SAMPLE | S.WF_PROBE, lists=True)
     return dict(spec=s)
 
 
@@ -78,6 +78,8 @@ def run(case, W):
         labels.append("back-pressure")
     if s["input"] and not s["input"].endswith(b"\n") and any(a[0] == S.AT_LINE and a[2] == S.WA_TRIG for a in s["actions"]):
         labels.append("event-while-line-incomplete")
+    if any(h.code == S.LIST and h.fsm == "c" for h in t.handlers):
+        labels.append("command-list")
     nok = sum(1 for st in t.status if st[1] == S.S_OK)
     if nok >= 2:
         labels.append("several-ok-phases")
